@@ -368,17 +368,20 @@ def check_filter_matrix(ctx, rng, share=0.4):
                 if not thorough and (vi + i + ci) % 2:
                     continue            # quick: half of the values per (template, flavour)
                 source = SOURCES[(i + vi // 2 + ci) % 3]
-                aname = args[(i + vi) % len(args)][0]
-                o, before, after = matrix_render(env, t.value, vname, aname, source)
-                ctx.ev()
-                ctx.count("matrix_renders")
-                ctx.count("fingerprint_checks")
-                ctx.count("matrix_renders:" + cfg[0])
-                ctx.count("matrix_source:" + source)
-                if o.ok:
-                    ctx.count("matrix_renders_ok")
-                    ctx.dist(["matrix", f, ARG_FORMS[ai], cfg[0], vname])
-                matrix_verdict(ctx, f, cfg[0], src, vname, aname, source, o, before, after)
+                # forms that pass the second piece of data get two different kinds of it per value
+                shifts = (0, 2) if "a" in ARG_FORMS[ai].replace("'", " ").replace("=", " ").replace(",", " ").split() else (0,)
+                for shift in shifts:
+                    aname = args[(i + vi + shift) % len(args)][0]
+                    o, before, after = matrix_render(env, t.value, vname, aname, source)
+                    ctx.ev()
+                    ctx.count("matrix_renders")
+                    ctx.count("fingerprint_checks")
+                    ctx.count("matrix_renders:" + cfg[0])
+                    ctx.count("matrix_source:" + source)
+                    if o.ok:
+                        ctx.count("matrix_renders_ok")
+                        ctx.dist(["matrix", f, ARG_FORMS[ai], cfg[0], vname])
+                    matrix_verdict(ctx, f, cfg[0], src, vname, aname, source, o, before, after)
 
 
 def env_for(case):
